@@ -16,7 +16,7 @@ CONDS = ['tsv_first_last', 'tsv_middle', 'tsv_three_small', 'tsv_wrong_count', '
 INFO = {
     'engine': 'crosshair-tool 0.0.110 + z3',
     'explanation': 'see level text',
-    'bounds': {'quick': dict({c: 'see precondition in harness/ch_c16.py' for c in CONDS}, loop_tsv='2 rows x 3 tab-separated cells (first row from {empty, blank, a, ", "a}, second from {empty, blank, a}) through the real streaming loop'), 'thorough': dict({c: 'same conditions with one more symbolic character per string, longer per-condition budget' for c in CONDS}, loop_tsv='as quick')},
+    'bounds': {'quick': dict({c: 'see precondition in harness/ch_c16.py' for c in CONDS}, vw_tokens='one or two tokens of a namespace from 8 texts containing NBSP, narrow NBSP, ideographic space, tab, colon', loop_tsv='2 rows x 3 tab-separated cells (first row from {empty, blank, a, ", "a}, second from {empty, blank, a}) through the real streaming loop'), 'thorough': dict({c: 'same conditions with one more symbolic character per string, longer per-condition budget' for c in CONDS}, loop_tsv='as quick', vw_tokens='as quick')},
     'outside': ['cells containing line breaks (excluded by the statement)', 'longer cells / more columns', 'the field-count test of the streaming loop on malformed lines (C08 drives it); here it is driven with well-formed tab-separated rows only'],
     'assumptions': ['open() replaced by a list-of-lines stub for the namespace map', 'SequenceConcatenation.__eq__ of crosshair 0.0.110 patched; sequences compared element-wise'],
     'job_timeout': {'quick': 500, 'thorough': 1800},
@@ -76,19 +76,78 @@ def run_loop(job):
     return hutil.run_symx(job, setup, body)
 
 
+# ---- VW tokens with characters that only LOOK like separators: the real parser on solver-chosen tokens -----------------------------
+VW_TOKENS = ['a_x', 'a_New\u00a0York', 'a_1\u202f000', 'a_\u3000', 'a_p\tq', 'a_-', 'a_|'[:2] + 'b', 'a_x:1']
+VW_HDR = ['label', 'f1', 'f2']
+VW_FW = {'A': 'f1', 'B': 'f2'}
+
+
+def vw_problem(t1, t2, two):
+    """'1 |A t1 [t2] |B b_y': the tokens of namespace A land, joined by '-' and without the two-character prefix, in column f1"""
+    import types as _t
+    loader.use_repo_on_syspath()
+    import outrank.core_utils as cu
+    toks = [t1, t2] if two else [t1]
+    line = '1 |A ' + ' '.join(toks) + ' |B b_y\n'
+    got = cu.generic_line_parser(line, None, _t.SimpleNamespace(data_source='ob-vw'), dict(VW_FW), list(VW_HDR))
+    exp = ['1', '-'.join(toks)[2:], 'y']
+    if list(got) != exp:
+        return f'line {line!r} parses to {list(got)!r}, the namespace tokens joined by "-" without the prefix give {exp!r}'
+    return None
+
+
+def run_vw(job):
+    import z3
+    from vlib import hutil
+    from vlib.symx import SInt
+    from vlib import symx
+    loader.record_functions('outrank/core_utils.py', ['generic_line_parser', 'parse_ob_line_vw'])
+    st = {}
+
+    def setup(ctx):
+        st['a'], st['b'], st['two'] = z3.Int('t1'), z3.Int('t2'), z3.Bool('two')
+        ctx.assume(st['a'] >= 0, st['a'] < len(VW_TOKENS), st['b'] >= 0, st['b'] < len(VW_TOKENS))
+
+    def body(ctx, out):
+        t1, t2 = VW_TOKENS[int(SInt(st['a'], 0, len(VW_TOKENS) - 1))], VW_TOKENS[int(SInt(st['b'], 0, len(VW_TOKENS) - 1))]
+        two = bool(symx.SBool(st['two']))
+        w = {'cond': 'vw_tokens', 'fn': 'vw_tokens', 't1': t1, 't2': t2, 'two': two}
+        try:
+            p = vw_problem(t1, t2, two)
+        except Exception as e:
+            p = f'{type(e).__name__}: {e}'
+        if p or out.twin:
+            out.concrete_fail(w, p or 'twin')
+        else:
+            out.concrete_ok()
+        out.sample(w)
+    return hutil.run_symx(job, setup, body)
+
+
 def jobs(tier):
     import pandas  # noqa
     out = _ch_jobs(tier)
+    out.append({'cond': 'vw_tokens', 'pins': {}, 'weight': 10, 'label': 'VW tokens containing non-breaking / ideographic spaces, tabs, colons'})
     for c0 in range(len(LOOP_POOL)):
         out.append({'cond': 'loop_tsv', 'pins': {'c0': c0}, 'weight': 20, 'label': f'streaming loop on tab-separated rows, first cell {LOOP_POOL[c0]!r}'})
     return out
 
 
 def run_job(job):
+    if job['cond'] == 'vw_tokens':
+        return run_vw(job)
     return run_loop(job) if job['cond'] == 'loop_tsv' else _ch_run(job)
 
 
 def replay(w):
+    if w.get('fn') == 'vw_tokens':
+        try:
+            p = vw_problem(w['t1'], w['t2'], w['two'])
+        except Exception as e:
+            p = f'{type(e).__name__}: {e}'
+        if p:
+            return {'reproduced': True, 'signature': 'C16:vw-tokens', 'what': p}
+        return {'reproduced': False, 'what': 'tokens land in their column unmodified'}
     if w.get('fn') == 'loop_tsv':
         try:
             p = loop_problem(w['table'])
